@@ -372,6 +372,8 @@ def plan(tier):
     for style in ([0, 1] if tier == "quick" else range(len(STYLES))):
         for compound in (0, 1):
             for names in range(len(MULTI_NAMES)):
+                if tier == "quick" and (names + style + compound) % 2:
+                    continue
                 jobs.append(Job("reproducible_multi", {"style": style, "compound": compound, "names": names}, 900 if tier == "quick" else 3000, 60, note="selector driven, three namespaces / files"))
     for style in ([0] if tier == "quick" else [0, 1, 3]):
         jobs.append(Job("transformer_history", {"style": style}, 600, 60, note="selector driven: histories of 3 ResourceTransformer.process calls with / without the on-disk cache"))
